@@ -69,7 +69,33 @@ Definition world_of (t : tables) : world :=
     (t_now t) (t_pw_sup t) (t_kbd t) (t_pk_sup t) ab apw akey aca akbd.
 
 (* ---- operations and observations ------------------------------------------------------------------ *)
-Inductive cop := ODeliver (p : bytes) | OComplete (fid : Z) | OSettle.
+Inductive cop := ODeliver (p : bytes) | OComplete (fid : Z) | OSettle | OTurn.
+
+(* one iteration of the event loop: exactly the continuations that are ready NOW run, oldest first; what
+   they spawn runs in a later iteration.  A marker entry (blocked on a future that does not exist) is
+   appended first: spawned continuations go behind it, cancellation leaves it alone. *)
+Definition marker_fid : Z := -1.
+Definition marker : option Z * kont := (Some marker_fid, KResume).
+Definition is_marker (c : option Z * kont) : bool :=
+  match c with (Some f, KResume) => f =? marker_fid | _ => false end.
+Fixpoint ready_before_marker (l : list (option Z * kont)) (i : nat) : option nat :=
+  match l with
+  | [] => None
+  | c :: r => if is_marker c then None
+              else match fst c with None => Some i | Some _ => ready_before_marker r (S i) end
+  end.
+Fixpoint turn_go (w : world) (sid : bytes) (fixed : bool) (fuel : nat) (s : st) : st * bool :=
+  match ready_before_marker (conts s) O with
+  | None => (s, false)
+  | Some i => match fuel with
+              | O => (s, true)
+              | S f => turn_go w sid fixed f (step w sid fixed s (Run i))
+              end
+  end.
+Definition turn (w : world) (sid : bytes) (fixed : bool) (s : st) : st * bool :=
+  if dead s then (s, false)
+  else let '(s', oof) := turn_go w sid fixed 200 (set_conts (conts s ++ [marker]) s) in
+       (set_conts (filter (fun c => negb (is_marker c)) (conts s')) s', oof).
 
 (* after every OSettle: (number of replies so far, number of auth_completed() calls, dead) *)
 Definition snap := (Z * Z * bool)%type.
@@ -90,6 +116,7 @@ Fixpoint run_ops (w : world) (sid : bytes) (fixed : bool) (ops : list cop) (s : 
                         | ODeliver p => (step w sid fixed s (Deliver p), false)
                         | OComplete f => (step w sid fixed s (Complete f), false)
                         | OSettle => settle w sid fixed 200 s
+                        | OTurn => turn w sid fixed s
                         end in
       let '(s2, tr, oof2) := run_ops w sid fixed r s1 in
       (s2, match o with OSettle => snap_of s1 :: tr | _ => tr end, oof || oof2)
